@@ -136,6 +136,14 @@ def main():
                     if fresh[i]["ok"]:
                         for name in flat_defs(fresh[i]["defs"], key):
                             if name not in final: bad.add("c16.missing-def")
+                # the definition of a named type is a function of the type: whichever root reaches it first in a fresh
+                # context, the body is the same (otherwise the shared context depends on the order of the calls)
+                bodies = {}
+                for f in fresh:
+                    if f["ok"]:
+                        for name, body in flat_defs(f["defs"], key).items():
+                            if name in bodies and bodies[name] != body: bad.add("c16.def-depends-on-root")
+                            bodies.setdefault(name, body)
                 for c in calls:
                     if c["ok"]:
                         for r in refs_in(c["schema"], []):
